@@ -49,9 +49,17 @@ def _is_literal(e):
     return isinstance(e, ast.Attribute) and e.attr in ('inf', 'nan') and isinstance(e.value, ast.Name)
 
 
+_ARRAY_MAKERS = {'stack', 'concatenate', 'hstack', 'vstack', 'array', 'asarray', 'zeros', 'ones', 'empty', 'full', 'eye', 'dot', 'outer', 'diag',
+                 'triu', 'tril', 'abs', 'exp', 'log', 'sqrt', 'where', 'logical_and', 'logical_or', 'logical_not', 'minimum', 'maximum',
+                 'sum', 'cumsum', 'repeat', 'tile', 'arange', 'isnan', 'isinf', 'isfinite', 'real', 'square', 'sort', 'argsort', 'unique'}
+
+
 def _root(e):
     if isinstance(e, (ast.BinOp, ast.UnaryOp, ast.Compare)):
         return '<expr>'           # a parenthesised arithmetic / comparison expression: an array, never a module
+    if isinstance(e, ast.Call) and isinstance(e.func, ast.Attribute) and isinstance(e.func.value, ast.Name) and e.func.value.id in ('np', 'numpy') \
+            and e.func.attr in _ARRAY_MAKERS:
+        return '<array>'          # np.stack(...).min(axis=2): the receiver is an array built by NumPy
     while isinstance(e, (ast.Attribute, ast.Subscript, ast.Call)):
         e = e.func if isinstance(e, ast.Call) else e.value
     return e.id if isinstance(e, ast.Name) else None
@@ -202,6 +210,9 @@ class _Spell(ast.NodeTransformer):
         if a == 'arange' and len(n.args) == 2 and not n.keywords and isinstance(n.args[0], ast.Constant) and n.args[0].value == 0 \
                 and type(n.args[0].value) is int:
             n.args = [n.args[1]]
+        if a == 'repeat' and not star and len(n.args) == 2 and len(n.keywords) == 1 and n.keywords[0].arg == 'axis':
+            n.args = list(n.args) + [n.keywords[0].value]      # (back to positional for the next rule; re-keyworded below)
+            n.keywords = []
         if a == 'repeat' and not star and len(n.args) == 3 and not n.keywords and isinstance(n.args[2], ast.Constant) and n.args[2].value == 0 \
                 and isinstance(n.args[0], ast.Call) and self._is_np(n.args[0].func, 'atleast_2d') and len(n.args[0].args) == 1 \
                 and isinstance(n.args[0].args[0], ast.Call) and self._is_np(n.args[0].args[0].func, 'arange'):
@@ -211,6 +222,12 @@ class _Spell(ast.NodeTransformer):
             ones = ast.Call(func=self._npattr('ones'), args=[ast.Tuple(elts=[n.args[0], n.args[0]], ctx=ast.Load())], keywords=[])
             tri = ast.Call(func=self._npattr('triu'), args=[ones, n.args[1]], keywords=[])
             return ast.copy_location(ast.Call(func=self._npattr('where'), args=[tri], keywords=[]), n)
+        if a in ('stack', 'concatenate', 'hstack', 'vstack', 'column_stack') and n.args and isinstance(n.args[0], ast.Tuple):
+            n.args = [ast.copy_location(ast.List(elts=n.args[0].elts, ctx=ast.Load()), n.args[0])] + list(n.args[1:])
+        if a in ('repeat', 'stack', 'concatenate', 'delete', 'append', 'take') and not star and not any(k.arg == 'axis' for k in n.keywords) \
+                and len(n.args) == {'repeat': 3, 'stack': 2, 'concatenate': 2, 'delete': 3, 'append': 3, 'take': 3}[a]:
+            n.keywords = list(n.keywords) + [ast.keyword(arg='axis', value=n.args[-1])]
+            n.args = n.args[:-1]
         if a in REDUCERS and len(n.args) == 2 and not star and not any(k.arg == 'axis' for k in n.keywords):
             n.keywords = [ast.keyword(arg='axis', value=n.args[1])] + list(n.keywords)
             n.args = [n.args[0]]
@@ -368,6 +385,7 @@ def canonical(tree, np_alias='np'):
     if np_alias is not None:
         tree = _Spell(np_alias).visit(tree)
     tree = _Struct().visit(tree)
+    tree = _Struct().visit(tree)       # second pass: conditionals created by the guard-clause step get the positive test first
     return ast.fix_missing_locations(tree)
 
 
